@@ -11,7 +11,10 @@ Correspondence areas (model vs. real code, all 16 configurations x {f64, f128}):
   as     As / CheckedAs for the eleven integer target types
   txtfn  txt.Unquote, txt.CommaFromStringNum on arbitrary bytes
   fltm   the float branch at the executed Lean instance (Model/FixedTextFloat.lean over GoSem.F64): `cfm` = As / CheckedAs to
-         float32 / float64 bit for bit, `pf` = strconv.ParseFloat of decimal texts, `ff` = strconv.FormatFloat(x,'f',-1,bits)
+         float32 / float64 bit for bit (and `wrong-error` unless a failure is fixed.ErrDoesNotFitInRequestedType itself),
+         `pf` = strconv.ParseFloat of decimal texts, `ff` = strconv.FormatFloat(x,'f',-1,bits), `pfx` = strconv.ParseFloat(t,64)
+         against the model's whole ParseFloat `parseFloatAny` (strconv.special: nan / inf / infinity and their neighbours, and
+         the texts of the exponent branch)
   (val also: `cfg` = MaxDecimalDigits/Multiplier of both packages, `ext` = f128.Maximum/Minimum; txtfn also: `commai` =
   txt.Comma[T] of every integer type)
 Every harness line runs under a 2.5 s deadline (`hang`; after three hangs the rest of the stream is skipped).
@@ -97,6 +100,10 @@ def run(ctx):
         "'never some other number' is read over literals whose truncated value is representable; beyond the range "
         "f64 wraps and f128 saturates (model and code are compared there, no alarm on the wrap itself)",
         "int, uint and uintptr are 64-bit (the harness platform)",
+        "strconv.ParseFloat is the correctly rounded conversion EXCEPT on decimal mantissas with more than 800 digits in "
+        "front of the point (observed, Go 1.23: its slow path stores 800 digits and then misplaces the decimal point, "
+        "ParseFloat('1'+800 zeros+'e-800') = 0.1); on those texts of the exponent branch model and harness both print "
+        "`long` (same definition on both sides, Model/FixedTextExp.lean longMantissa) and nothing is compared",
         "integer CheckedAs is read literally ('converting it back yields the original'): f64.CheckedAs to "
         "uint64/uint/uintptr accepts negative whole numbers (D1 raw -10 -> 18446744073709551615, nil) because "
         "From converts back through int64; f128 rejects them; the model transcribes both, no alarm is raised",
@@ -107,7 +114,7 @@ def run(ctx):
     ctx.diff(area="val", driver="drv_c04", n={"quick": 36000, "thorough": 3000000}, shards=None if ctx.tier == "thorough" else 8,
              theorem=thm % "toString_shape / toString_exact / toString_canonical / roundtrip_configs64 / roundtrip_configs128 / comma_shape / withSign_forms")
     ctx.diff(area="parse", driver="drv_c04", n={"quick": 120000, "thorough": 6000000},
-             tagger=_parse_tag,
+             tagger=_parse_tag, trivial=lambda l, o: o.startswith("long"),
              theorem=thm % "fromString_literal_all64 / fromString_literal_all128 / fromString_accepts64 / fromString_accepts128 / fromStringX_refines / fromStringX_total / fromString_never_panics / exp_literal_bound64 / exp_literal_bound128 / exp_literal_zero")
     ctx.diff(area="as", driver="drv_c04", n={"quick": 60000, "thorough": 3000000},
              tagger=lambda l, o: "as:" + o.split(" ")[-1].split(":", 1)[0],
